@@ -3,6 +3,7 @@
 Rules: ROUNDTRIP, VAR-DEF, VAR-RANK, VAR-REG, SIGN-RANGE (+ UNIT per variable when the
 units engine is present)."""
 import ast
+from fractions import Fraction
 
 from ..interp import Vec
 from ..models import Ctx, MODELS, flat
@@ -157,6 +158,107 @@ def variables(check, key):
     return n
 
 
+ROUND_FACTOR, ROUND_SLACK = 16.0, 1024.0
+
+
+def var_round(check, key):
+    """VAR-ROUND: "equals its definition" is meant to rounding, over 12 decades of density and pressure.  First-order forward
+    error analysis (rounding.py) of each variable AS WRITTEN, on exact conservative data, compared with the same analysis of the
+    statement's definition applied to the code's own density / velocity / pressure -- so that what the conservative variables
+    cost by themselves (pressure from the total energy at high Mach number) is on both sides.  A formula that is equal in real
+    arithmetic but cancels in floating point (log1p(x - 1) for log(x), (a^2 - b^2)/(a - b) ...) stands out by its bound at
+    the witness states where the cancellation happens; bounds are ring elements evaluated at witness points spread
+    log-uniformly over rho, p in 1e-6 .. 1e6 and |u| in 1e-3 .. 1e3.  Nothing is executed."""
+    import re
+    from ..algebra import RF, DCTX
+    from ..interp import Interp, SelfObj
+    from ..rounding import ErrDomain, EV
+    proj = check.proj
+    ctx = Ctx(proj, key)
+    A = ctx.alg
+    A.start_clock()
+    A.numeric_functions = {"log": lambda v: DCTX.ln(v), "exp": lambda v: DCTX.exp(v)}
+    dom = ErrDomain(A)
+    it = Interp(proj, dom)
+    it.fold_locals = False
+    zero = A.const(0)
+    attrs = {}
+    for n_, v_ in ctx.selfobj.attrs.items():
+        attrs[n_] = EV(v_, zero) if isinstance(v_, RF) else v_
+    so = SelfObj(ctx.cls, attrs)
+    rho, u, p = ctx.prim("")
+    gam = ctx.selfobj.attrs["gamma"]
+    q = [EV(x, zero) for x in (rho, rho * u, p / (gam - 1) + rho * u * u / 2)]
+    reg = proj.instance_registry(ctx.cls, "_vardict")
+    code = {}
+    for name, f in sorted(reg.items()):
+        try:
+            r = it.call_function(f, [so, q])
+        except AnalysisError as e:
+            code[name] = e
+            continue
+        code[name] = r
+    need = [n_ for n_ in ("pressure", "density", "velocity") if not isinstance(code.get(n_), EV)]
+    if need:
+        raise AnalysisError("rounding analysis of the basic variables failed: %s" % ", ".join("%s (%s)" % (n_, code.get(n_)) for n_ in need))
+    P, R, U = code["pressure"], code["density"], code["velocity"]
+    G = EV(gam, zero)
+    one, half = dom.const(1), dom.const(Fraction(1, 2))
+    gm1 = dom.sub(G, one)
+    c2 = dom.div(dom.mul(G, P), R)
+    v2 = dom.mul(U, U)
+    m2 = dom.div(v2, c2)
+    enth = dom.div(dom.mul(dom.div(G, gm1), P), R)
+    htot = dom.add(enth, dom.mul(half, v2))
+    refs = {
+        "asound": dom.func1("sqrt", c2),
+        "mach": dom.div(dom.func1("abs", U), dom.func1("sqrt", c2)),
+        "enthalpy": enth,
+        "htot": htot,
+        "rttot": dom.mul(dom.div(gm1, G), htot),
+        "ptot": dom.mul(P, dom.pow(dom.add(one, dom.mul(dom.mul(half, gm1), m2)), dom.div(G, gm1))),
+        "entropy": dom.div(dom.func1("log", dom.div(P, dom.pow(R, G))), gm1),
+    }
+    if key != "nozzle":
+        refs["massflow"] = dom.mul(R, U)
+    A.point_pattern_hooks.append((re.compile(r"^(rho|p)$"), lambda m, k, h: 10.0 ** (-6.0 + 12.0 * h)))
+    A.point_pattern_hooks.append((re.compile(r"^u$"), lambda m, k, h: (10.0 ** (-3.0 + 6.0 * ((h * 7919.0) % 1.0))) * (1.0 if h < 0.5 else -1.0)))
+    cls = ctx.cls
+    for name, ref in sorted(refs.items()):
+        f = reg.get(name)
+        if f is None:
+            continue
+        construct = "%s[%s]" % (cls.qualname, name)
+        got = code.get(name)
+        if not isinstance(got, EV):
+            check.undecided("VAR-ROUND", construct, "rounding analysis failed: %s" % (got,), f.loc())
+            continue
+        worst = None
+        npts = 0
+        for k in range(9000, 9400):
+            A._memo.pop(k, None)
+            if not A.admissible(k):
+                continue
+            ec, er = A.evalf(got.e, k), A.evalf(ref.e, k)
+            if ec is None or er is None or ec.is_nan() or er.is_nan():
+                continue
+            npts += 1
+            ec, er = float(ec), float(er)
+            ratio = ec / (ROUND_FACTOR * er + ROUND_SLACK)
+            if worst is None or ratio > worst[0]:
+                vals = {n_: float(A.evalf(A.by_name[n_] if not isinstance(A.by_name[n_], RF) and False else A.atom_rf(A.by_name[n_]), k)) for n_ in ("rho", "u", "p", "gamma") if n_ in A.by_name}
+                worst = (ratio, ec, er, vals)
+        check.inventory["VAR-ROUND witness states [%s]" % name] = npts
+        if worst is None or npts < 100:
+            check.undecided("VAR-ROUND", construct, "only %d witness states evaluated" % npts, f.loc())
+        elif worst[0] > 1.0:
+            st = ", ".join("%s=%.3g" % kv for kv in sorted(worst[3].items()))
+            check.violation("VAR-ROUND", construct, "as written, %s loses accuracy the definition does not: first-order relative error bound %.3g u (u = 2^-53, i.e. %.1e relative) against %.3g u for the definition evaluated on the same density / velocity / pressure, at the state {%s} -- equal in real arithmetic, not to rounding (a rounded intermediate is subtracted from a nearby constant, e.g. log1p(x - 1.) for log(x): `x - 1.` has already lost x when x is small)"
+                            % (f.qualname, worst[1], worst[1] * 1.1e-16, worst[2], st), f.loc(), key="round")
+        else:
+            check.ok("VAR-ROUND", construct, "rounding-error bound of the expression as written <= %.0f x that of the definition + %.0f u on %d witness states (rho, p over 12 decades, |u| over 6, gamma in (1, 2]); worst ratio %.2g" % (ROUND_FACTOR, ROUND_SLACK, npts, worst[0]), f.loc())
+
+
 def dispatch(check):
     proj = check.proj
     f = proj.func("modelphy.base.model.nameddata")
@@ -183,13 +285,14 @@ def body(check):
                          "definition are decided as ring identities for all states; rank (one value per cell) from the "
                          "vector/scalar typing of the abstract interpreter")
     check.trusted += ["variable definition table transcribed from the statement (c17.definitions)"]
-    check.assume("admissible states: rho, p, h > 0, gamma > 1; exact real arithmetic (cancellation error not decided)")
+    check.assume("admissible states: rho, p, h > 0, gamma > 1; the definitions are decided in exact real arithmetic; rounding is decided only as a first-order bound relative to the definition's own conditioning (VAR-ROUND, Euler 1D variables)")
     nvars = 0
     for key in KEYS:
         check.guarded("ROUNDTRIP", key, lambda: roundtrip(check, key))
         r = check.guarded("VAR-DEF", key, lambda: variables(check, key))
         nvars += r or 0
     check.floor("registered variables", nvars, 14 + 14 + 15 + 3 + 1)
+    check.guarded("VAR-ROUND", "euler1d", lambda: var_round(check, "euler1d"))
     dispatch(check)
     # nozzle massflow = rho*u*S(x_c): the positions the section law is evaluated at are the mesh's
     # cell centres on every mesh (same obligation as C19 NOZ-GEOM, the `_xc` clause)
